@@ -90,16 +90,27 @@ def monitor(op_line, out_line, st):
         return None
     x, y, e = o['x'], o['y'], o['errz']
     ex = S.Exact(op)
-    key = None
-    # the landing point that is a recorded / fixed finding: stop request before the first
-    # line-search pass of iteration 0
+    # The finiteness / consistency clauses presuppose finite problem functions (DESIGN §6 C03,
+    # `x_out_finite_partial`): a NaN / inf returned by a problem oracle (NaN injection, overflow of a
+    # diverging run) is copied into x̂ / ŷ by construction.
+    nonfin = {'nan', '7ff0000000000000', 'fff0000000000000'}
+    oracle_nonfinite = any(ev[0] in ('psigradpsi', 'psi', 'gradpsi', 'gradL', 'prox') and nonfin.intersection(ev[1:])
+                           for ev in r['events'])
+    # "inside C up to rounding of the projection, a few ulps of the *operands*": x̂ = x + clamp(−γ∇ψ,
+    # lb − x, ub − x), so the operands are the final iterate's x (final callback) and the bound.
+    xs = r['cbs'][-1]['x'] if r['cbs'] else x
     for i in range(n):
         if not math.isfinite(x[i]):
+            if oracle_nonfinite:
+                return None
             return f'returned x[{i}]={x[i]!r} is not finite (status {stx["status"]})'
         lo, hi = ex.Clb[i], ex.Cub[i]
-        if x[i] < lo - 4 * math.ulp(max(abs(x[i]), abs(lo) if math.isfinite(lo) else 0.0)) or \
-           x[i] > hi + 4 * math.ulp(max(abs(x[i]), abs(hi) if math.isfinite(hi) else 0.0)):
+        mags = [abs(v) for v in (x[i], xs[i] if i < len(xs) else 0.0, lo, hi) if math.isfinite(v)]
+        tolx = 4 * math.ulp(max(mags + [0.0]))
+        if x[i] < lo - tolx or x[i] > hi + tolx:
             return f'returned x[{i}]={x[i]!r} outside C=[{lo},{hi}] (status {stx["status"]})'
+    if oracle_nonfinite:
+        return None
     if m:
         X = S.frv(x)
         gx = ex.g(X)
@@ -134,47 +145,34 @@ def nontrivial(op_line, out_line):
     return None
 
 
-def main(argv, pid='C03', extra_monitor=None):
-    exe, log = S.build_harness()
-    tier = C.tier_from_argv(argv)
+def main(argv):
+    import multiloop
 
-    def gen_ops(rng, n):
-        ops = [gen_run(rng).line() for _ in range(n)]
-        if exe:
-            ops += sweep_ops(rng, exe, 3 if tier == 'quick' else 25)
-        return ops
+    def mon(solver, o, h, st):
+        o2, h2 = solver.c03_view(o, h)
+        if h2.startswith('S exception'):
+            return None
+        return monitor(o2, h2, st)
 
-    def mon(o, h, st):
-        m = monitor(o, h, st)
-        if m is None and extra_monitor is not None:
-            m = extra_monitor(o, h, st)
-        return m
-
-    return C.standard_check(
-        pid, argv,
-        gen_scripts=['gen_c05.py', 'gen_c06.py', 'gen_c15.py'],
-        modules=['Alpaqa.Props.C03'], driver='drv_loop',
-        extra_sources=['Alpaqa/Model/Panoc.lean', 'Alpaqa/Gen/C05.lean', 'Alpaqa/Gen/C06.lean'],
-        harness_name='solvers', harness_sources=[], harness_builder=lambda: (exe, log),
-        gen_ops=gen_ops, monitor=mon, nontrivial=nontrivial,
-        driver_input=lambda o, h: o + ' || ' + S.events_only(h), impl_view=S.strip_events,
-        n_quick=250, n_thorough=4000,
+    return multiloop.loop_check(
+        'C03', argv, monitor=mon, nontrivial=nontrivial,
+        n_quick=450, n_thorough=6000, sweep_quick=2, sweep_thorough=20,
         trusted_base=[
             'Lean 4.33 kernel + Mathlib (axioms: propext, Classical.choice, Quot.sound)',
             'translators gen_c05/gen_c06 (acceptance tests, status chain, stopping criteria)',
-            'hand-written loop model Alpaqa/Model/Panoc.lean tied by bit-exact trace replay '
+            'hand-written loop models Alpaqa/Model/{Panoc,Zerofpr,Pantr,…}.lean tied by bit-exact trace replay '
             '(every callback field, written-back x/y/err_z, statistics, number of oracle calls) on the '
             'explored runs only',
-            'problem functions, direction providers, stop flag and clock are oracles of the model; the '
+            'problem functions, direction providers, stop flag and clock are oracles of the models; the '
             'composed evaluations (ψ, ŷ) are assumed to equal their closed forms (proved in C04)',
-            'ZeroFPR / PANTR / FISTA / PANOC-OCP loops: monitors only until their models exist',
+            'solvers without a loop model yet are listed in coverage.per_solver as absent',
         ],
-        assumptions=['harness flags pin Eigen evaluation order; real-number semantics in theorems'],
-        rule='seeded random PANOC runs on polynomial problems (n≤4, m≤3, convex and nonconvex, mixed '
-             'finite/infinite/equal bounds, optional ℓ1), 5 direction providers incl. an adversarial one, '
-             'all 10 criteria, max_iter ∈ {0,1,2,3,5,20,60}, both overwrite settings, NaN injection, '
-             'stop() from evaluation k / callback j; plus exhaustive stop injection at every event index '
-             'of fixed runs; non-trivial = at least one iteration or interrupted; distinct by op line',
+        assumptions=['harness flags pin Eigen evaluation order; structural theorems hold over any carrier'],
+        rule='per modelled solver: seeded random runs on polynomial problems (n≤4, m≤3, convex and nonconvex, '
+             'mixed finite/infinite/equal bounds, optional ℓ1), all direction providers incl. adversarial '
+             'ones, all 10 criteria, max_iter ∈ {0,1,2,3,5,20,60}, both overwrite settings, NaN injection, '
+             'stop() from evaluation k / callback j; plus exhaustive stop injection at every event index of '
+             'fixed runs; non-trivial = at least one iteration or interrupted; distinct by (solver, op line)',
     )
 
 
